@@ -68,6 +68,7 @@ deriving DecidableEq, Repr, Inhabited
 inductive Drv
   | idle      -- top of `run_ice_dtls_loop` / `run_rtp_direct_loop`, waiting for an ICE state change
   | waitRole  -- `handle_connected_state`, no DTLS role yet
+  | waitDescs -- `run_rtp_direct_loop` (Srtp mode): polling for both descriptions
   | starting  -- inside `start_dtls`, waiting for the DTLS state
   | running   -- the connected `select!` loop (transport loops spawned)
   | done      -- the task has returned
@@ -79,11 +80,14 @@ deriving DecidableEq, Repr, Inhabited
 
 structure Chan where
   closed : Bool
-  events : Nat      -- number of `DataChannelEvent::Close` delivered to this channel
+  events : Nat          -- number of `DataChannelEvent::Close` delivered to this channel
+  senderDropped : Bool  -- `close_channel()` ran: a pending / later `recv()` returns `None`
 deriving DecidableEq, Repr, Inhabited
 
 structure St where
   mode        : Mode
+  needDescs   : Bool          -- SDES (Srtp mode): `setup_sdes` needs both descriptions
+  descs       : Bool          -- both descriptions are set
   hasApp      : Bool          -- the remote description has an application section (SCTP will be created)
   role        : Bool          -- `dtls_role` is `Some(_)`
   peer        : PeerSt
@@ -105,30 +109,49 @@ structure St where
   close       : ClosePc
   closeArg    : Reason
   grace       : Bool          -- a grace timer of the current disconnect epoch is pending
+  appGone     : Bool          -- the application dropped its last handle while a loop still held a strong one
+  blocked     : Nat           -- `send_data` calls parked in the SCTP flow-control wait
 deriving DecidableEq, Repr, Inhabited
 
 /-! ### small building blocks (one per code idiom) -/
 
-/-- `disconnect_reason.send_if_modified(|cur| if cur.is_none() { *cur = Some(r) })` -/
+/-- `disconnect_reason.send_if_modified(|cur| if cur.is_none() { *cur = Some(r) })`
+(also `close_with_reason` since fix 3b14b84: check and set are one step) -/
 def setReasonIfNone (s : St) (r : Reason) : St :=
   match s.reason with
   | some _ => s
   | none => { s with reason := some r }
 
-/-- one channel in `SctpCleanupGuard::drop`: swap state to Closed, event only if it was not Closed -/
+/-- `PeerConnectionInner::set_peer_state` (fix 0e0d29e): the driving loops' writes never leave `Closed` -/
+def setPeer (s : St) (p : PeerSt) : St :=
+  if s.peer = .closed then s else { s with peer := p }
+
+/-- one channel in `SctpCleanupGuard::drop` / `close_with_reason`: swap the state to Closed; only if it
+was not Closed: Close event and `close_channel()` (sender dropped) -/
 def closeChan (c : Chan) : Chan :=
-  if c.closed then c else { closed := true, events := c.events + 1 }
+  if c.closed then c else { closed := true, events := c.events + 1, senderDropped := true }
+
+/-- `SctpInner::close_data_channel` as the code has it: `store(Closed)` and an **unconditional**
+`send_event(Close)`, no `close_channel()` -/
+def rawCloseChan (c : Chan) : Chan :=
+  { c with closed := true, events := if c.senderDropped then c.events else c.events + 1 }
+
+def rawCloseAt : List Chan → Nat → List Chan
+  | [], _ => []
+  | c :: cs, 0 => rawCloseChan c :: cs
+  | c :: cs, i + 1 => c :: rawCloseAt cs i
 
 /-- the runner future ends or is dropped: `SctpCleanupGuard` runs -/
 def sctpEnd (s : St) : St :=
-  { s with sctp := .ended, chans := s.chans.map closeChan }
+  -- the guard also wakes every sender parked in flow control (fix: they see Closed and error)
+  { s with sctp := .ended, chans := s.chans.map closeChan, blocked := 0 }
 
 /-- `LoopsGuard` dropped (the first-done future is dropped): every transport loop is aborted; a live SCTP
 runner future is dropped, which runs its guard. -/
 def abortLoops (s : St) : St :=
   if s.sctp = .waiting ∨ s.sctp = .running then sctpEnd s else s
 
-/-- (fix 48fb8f1) the association is gone: `Connected → Disconnected`, any other state is kept -/
+/-- (fix a95bd0d) the association is gone: `Connected → Disconnected`, any other state is kept -/
 def markGone (s : St) : St :=
   if s.peer = .connected then { s with peer := .disconnected } else s
 
@@ -161,15 +184,30 @@ def teardown (s : St) (arg : Reason) : St :=
     let s1 := setReasonIfNone s r
     { s1 with sig := .closed, peer := .closed, listenersCleared := true,
               sctpCloseReq := if s.held then true else s.sctpCloseReq, held := false,
+              blocked := if s.held then 0 else s.blocked,
               chans := s.chans.map closeChan,
               dtlsCloseReq := if s.dtls = .absent then s.dtlsCloseReq else true,
               ice := .closed }
 
+/-- `Drop for PeerConnectionInner`: `close_with_reason(Dropped)` then `abort_tracked_tasks` (the driving
+loop task and everything it spawned) -/
+def dropAll (s : St) : St :=
+  abortLoops { teardown s .dropped with drv := .done }
+
+/-- the driving loop gives up with `Failed`: the registered channels that never got an association are
+closed too (fix 901afcf) -/
+def failExit (s : St) : St :=
+  { setPeer s .failed with chans := s.chans.map closeChan, drv := .done }
+
+/-- the driving loop lets go of its strong handles (`pc_temp`, `inner`): if the application's handles
+are already gone this is the last reference and `Drop` runs here -/
+def release (s : St) : St := if s.appGone then dropAll s else s
+
 /-- top of the driving loop with ICE `Failed` / `Closed` (the arms that set the reason and return).
-`Closed` runs the full teardown (fix 29323ff); it is a no-op when `close()` itself stopped ICE. -/
+`Closed` runs the full teardown (fix 10e810f); it is a no-op when `close()` itself stopped ICE. -/
 def topDown (s : St) : St :=
   if s.ice = .failed then
-    { setReasonIfNone s .iceFailed with peer := .failed, drv := .done, iceSeen := s.ice }
+    { failExit (setReasonIfNone s .iceFailed) with iceSeen := s.ice }
   else if s.ice = .closed then
     { teardown (setReasonIfNone s .iceDisconnected) .iceDisconnected with drv := .done, iceSeen := .closed }
   else { s with drv := .idle, iceSeen := s.ice }
@@ -184,11 +222,13 @@ def beginStart (s : St) : St :=
            sctpCloseReq := if s.hasApp then false else s.sctpCloseReq,
            drv := .starting }
 
-/-- top of the driving loop, ICE `Connected`: direct modes call `start_dtls` (which re-reads the selected
-pair, see `drvStart`); WebRTC needs the role first. -/
+/-- top of the driving loop, ICE `Connected`: the direct modes call `start_dtls` (which re-reads the
+selected pair, see `drvStart`) — SDES first waits for both descriptions (fix 5883492); WebRTC needs the role. -/
 def topConnected (s : St) : St :=
   match s.mode with
-  | .direct => { s with drv := .starting, iceSeen := s.ice }
+  | .direct =>
+    if s.needDescs && !s.descs && s.peer != .closed then { s with drv := .waitDescs, iceSeen := s.ice }
+    else { s with drv := .starting, iceSeen := s.ice }
   | .webrtc =>
     if s.role then beginStart { s with iceSeen := s.ice }
     else { s with drv := .waitRole, iceSeen := s.ice }
@@ -200,27 +240,28 @@ inductive Act
   | callClose (arg : Reason)  -- `close()` (LocalClose) — block A of `close_with_reason`
   | closeStep                 -- blocks B and C of an in-flight `close_with_reason`
   | appDrop                   -- last application handle dropped
+  | closeChannel (i : Nat)    -- `SctpTransport::close_data_channel(id)` (not reachable through `PeerConnection`)
+  | senderBlocks              -- a `send_data` call runs into the flow-control limit and parks
   -- environment
   | peerCloseNotify | dtlsFail | peerAbort | peerShutdownAck | peerShutdown | hbTimeout
   | iceFail | iceStop | iceDisconnect | iceRecover
   -- environment: connection progress (used when an event races connection establishment)
-  | iceConnect | dtlsConnect | roleSet
+  | iceConnect | dtlsConnect | roleSet | descsSet
   -- driving loop (one per `select!` arm / await point)
-  | drvTop | drvRole | drvStart | drvLoops | drvIce | drvDtls | drvGrace
+  | drvTop | drvRole | drvDescs | drvStart | drvLoops | drvIce | drvDtls | drvGrace
   -- SCTP runner
   | sctpDtls | sctpClose
   -- DTLS task
   | dtlsExit | dtlsSock
 deriving DecidableEq, Repr
 
-/-- does the driving loop hold a strong `Arc<PeerConnectionInner>` across its await?
-`handle_connected_state` keeps `inner` / `pc_temp` alive inside `start_dtls` and the whole connected loop;
-`handle_connected_state_no_dtls` drops it before its loop. -/
-def drvHoldsStrong (s : St) : Bool :=
-  s.mode == .webrtc && (s.drv == .starting || s.drv == .running)
+/-- does the driving loop hold a strong `Arc<PeerConnectionInner>` across its await? Only while it is
+inside `start_dtls(..).await` (`pc_temp`); both connected loops hold the connection weakly
+(fixes 10e810f, WebRTC-loop fix). -/
+def drvHoldsStrong (s : St) : Bool := s.drv == .starting
 
 /-- block A of `close_with_reason`: the `Closed` check, the reason (SCTP's more specific reason wins over
-the argument, first reason wins overall), the four state watches. -/
+the argument, first reason wins overall — atomically), the four state watches. -/
 def closeA (s : St) (arg : Reason) : St :=
   if s.peer = .closed then { s with close := .finished }
   else
@@ -232,28 +273,27 @@ def closeA (s : St) (arg : Reason) : St :=
       else arg
     { setReasonIfNone s r with sig := .closed, peer := .closed, close := .a, closeArg := arg }
 
-/-- block B: tracks stopped / listeners cleared, `sctp_transport.take()` + `close()` -/
+/-- block B: tracks stopped / listeners cleared, `sctp_transport.take()` + `close()`, every registered
+channel that is not yet Closed is closed (fix 22c520e) -/
 def closeB (s : St) : St :=
   { s with listenersCleared := true,
            sctpCloseReq := if s.held then true else s.sctpCloseReq,
+           blocked := if s.held then 0 else s.blocked,   -- `SctpTransport::close()` → `notify_waiters()`
            held := false, close := .b,
-           -- (fix 78635d3) every registered channel that is not yet Closed is closed here
            chans := s.chans.map closeChan }
 
-/-- block C: `dtls.close()`, `ice_transport.stop()` -/
+/-- block C: `dtls.close()`, `ice_transport.stop()`, tracked tasks aborted -/
 def closeC (s : St) : St :=
-  { s with dtlsCloseReq := if s.dtls = .absent then s.dtlsCloseReq else true,
-           ice := .closed, close := .finished }
-
-/-- `Drop for PeerConnectionInner`: `close_with_reason(Dropped)` then `abort_tracked_tasks` (the driving
-loop task and everything it spawned) -/
-def dropAll (s : St) : St :=
-  abortLoops { teardown s .dropped with drv := .done }
+  -- … and `abort_tracked_tasks()` (fix 4a209bd): the driving-loop task and what it spawned are aborted
+  abortLoops { s with dtlsCloseReq := if s.dtls = .absent then s.dtlsCloseReq else true,
+                      ice := .closed, close := .finished, drv := .done }
 
 def enabled (s : St) : Act → Bool
   | .callClose _ => s.close == .none || s.close == .finished
   | .closeStep => s.close == .a || s.close == .b
-  | .appDrop => true
+  | .appDrop => !s.appGone
+  | .closeChannel i => s.sctp == .running && s.held && decide (i < s.chans.length)
+  | .senderBlocks => s.sctp == .running && s.held && !s.sctpCloseReq && decide (s.blocked < 3)
   | .peerCloseNotify => s.dtls == .connected && !s.dtlsExited
   | .dtlsFail => s.dtls == .handshaking && !s.dtlsExited
   | .peerAbort | .peerShutdownAck | .hbTimeout => s.sctp == .running
@@ -265,8 +305,10 @@ def enabled (s : St) : Act → Bool
   | .iceConnect => s.ice == .new || s.ice == .checking
   | .dtlsConnect => s.dtls == .handshaking && !s.dtlsExited && s.ice == .connected
   | .roleSet => !s.role
+  | .descsSet => !s.descs
   | .drvTop => s.drv == .idle && s.ice != s.iceSeen
   | .drvRole => s.drv == .waitRole && s.role
+  | .drvDescs => s.drv == .waitDescs && (s.descs || s.peer == .closed || s.ice != .connected)
   | .drvStart => s.drv == .starting && (s.mode == .direct || s.dtls == .connected || dtlsDown s.dtls || s.sctp == .ended)
   | .drvLoops => s.drv == .running && (s.sctp == .ended || s.listenersCleared)
   | .drvIce => (s.drv == .running || s.drv == .waitRole) && s.ice != s.iceSeen
@@ -280,16 +322,21 @@ def enabled (s : St) : Act → Bool
   | .dtlsExit => !s.dtlsExited && s.dtlsCloseReq && s.dtls != .absent
   | .dtlsSock => !s.dtlsExited && s.ice == .closed && (s.dtls == .handshaking || s.dtls == .connected)
 
+/-- the DTLS-down reason string of the SCTP runner (both its wait phase, fix 8df52c2, and its loop) -/
+def whyOfDtls (d : DtlsSt) : SctpWhy := if d = .failed then .dtlsFailed else .dtlsClosed
+
 def apply (s : St) : Act → St
   | .callClose arg => closeA s arg
   | .closeStep => if s.close = .a then closeB s else closeC s
-  | .appDrop => if drvHoldsStrong s then s else dropAll s
+  | .appDrop => if drvHoldsStrong s then { s with appGone := true } else dropAll { s with appGone := true }
+  | .closeChannel i => { s with chans := rawCloseAt s.chans i }
+  | .senderBlocks => { s with blocked := s.blocked + 1 }
   | .peerCloseNotify => { s with dtls := .closed }
   | .dtlsFail => { s with dtls := .failed, dtlsExited := true }
   | .peerAbort => sctpEnd { s with why := some .remoteAbort }
   | .peerShutdownAck => sctpEnd { s with why := some .remoteShutdown }
   | .hbTimeout => sctpEnd { s with why := some .heartbeatTimeout }
-  | .peerShutdown => sctpEnd { s with why := some .remoteShutdown }  -- SHUTDOWN … SHUTDOWN COMPLETE (fix 33f2935)
+  | .peerShutdown => sctpEnd { s with why := some .remoteShutdown }  -- SHUTDOWN … SHUTDOWN COMPLETE (fix 631c2a4)
   | .iceFail => { s with ice := .failed }
   | .iceStop => { s with ice := .closed }
   | .iceDisconnect => { s with ice := .disconnected }
@@ -297,46 +344,55 @@ def apply (s : St) : Act → St
   | .iceConnect => { s with ice := .connected }
   | .dtlsConnect => { s with dtls := .connected }
   | .roleSet => { s with role := true }
+  | .descsSet => { s with descs := true }
   | .drvTop =>
     if s.ice = .connected then topConnected s
     else if iceDown s.ice then topDown s
     else { s with iceSeen := s.ice }
   | .drvRole => beginStart s
+  | .drvDescs =>
+    -- leaving the poll loop: ICE gone → back to the top (`continue`), else `start_dtls`
+    if s.ice = .connected then { s with drv := .starting } else { s with drv := .idle, iceSeen := .connected }
   | .drvStart =>
     if s.mode = .direct then
       -- `start_dtls` of the direct modes: `get_selected_pair()` fails when ICE was stopped meanwhile
-      if s.ice = .connected then { s with peer := .connected, drv := .running, listenersCleared := false }
-      else { setReasonIfNone s .transportStartFailed with peer := .failed, drv := .done }
+      if s.ice = .connected then
+        if s.peer = .closed then release { s with drv := .done }
+        else release { s with peer := .connected, drv := .running, listenersCleared := false }
+      else release (failExit (setReasonIfNone s .transportStartFailed))
     else if s.dtls = .connected ∧ s.sctp ≠ .ended then
-      { s with peer := .connected, dtlsSeen := .connected, drv := .running, listenersCleared := false }
+      if s.peer = .closed then release (abortLoops { s with drv := .done })
+      else release { s with peer := .connected, dtlsSeen := .connected, drv := .running, listenersCleared := false }
     else
       -- Err(..) from start_dtls: DtlsFailed / Failed, the pending runner future is dropped
-      abortLoops { setReasonIfNone s .dtlsFailed with peer := .failed, drv := .done }
+      release (abortLoops (failExit (setReasonIfNone s .dtlsFailed)))
   | .drvLoops =>
     let s1 := abortLoops (propagate s)
-    if iceDown s1.ice then topDown s1 else { s1 with drv := .done }
+    -- the direct-mode loop returns without re-reading ICE; the WebRTC one re-reads it
+    if s.mode = .webrtc ∧ iceDown s1.ice then topDown s1 else { s1 with drv := .done }
   | .drvIce =>
     if iceDown s.ice then topDown (abortLoops s)
     else if s.drv = .running then
-      if s.ice = .disconnected then { s with iceSeen := s.ice, peer := .disconnected, grace := true }
-      else if s.ice = .connected then { s with iceSeen := s.ice, peer := .connected, grace := false }
+      if s.ice = .disconnected then { setPeer s .disconnected with iceSeen := s.ice, grace := true }
+      else if s.ice = .connected then { setPeer s .connected with iceSeen := s.ice, grace := false }
       else { s with iceSeen := s.ice }
     else { s with iceSeen := s.ice }
   | .drvDtls =>
     if dtlsDown s.dtls then
-      abortLoops { setReasonIfNone s (if s.dtls = .failed then .dtlsFailed else .dtlsClosed) with
-                   dtlsSeen := s.dtls, peer := .disconnected, drv := .done }
+      abortLoops { setPeer (setReasonIfNone s (if s.dtls = .failed then .dtlsFailed else .dtlsClosed)) .disconnected with
+                   dtlsSeen := s.dtls, drv := .done }
     else { s with dtlsSeen := s.dtls }
   | .drvGrace =>
-    let s0 := setReasonIfNone s .iceDisconnected
-    let s1 := { s0 with peer := .disconnected, grace := false, sctpCloseReq := if s.held then true else s.sctpCloseReq }
+    let s0 := setPeer (setReasonIfNone s .iceDisconnected) .disconnected
+    let s1 := { s0 with grace := false, sctpCloseReq := if s.held then true else s.sctpCloseReq, blocked := if s.held then 0 else s.blocked }
     { abortLoops s1 with drv := .idle }
   | .sctpDtls =>
     if s.sctp = .waiting then
-      if s.dtls = .connected then { s with sctp := .running } else sctpEnd s
-    else sctpEnd { s with why := some (if s.dtls = .failed then .dtlsFailed else .dtlsClosed) }
+      if s.dtls = .connected then { s with sctp := .running }
+      else sctpEnd { s with why := some (whyOfDtls s.dtls) }
+    else sctpEnd { s with why := some (whyOfDtls s.dtls) }
   | .sctpClose => sctpEnd { s with why := match s.why with | none => some .localClose | w => w }
-  | .dtlsExit => { s with dtlsExited := true }
+  | .dtlsExit => { s with dtlsExited := true, dtls := .closed }   -- publishes Closed (fix f59957e)
   | .dtlsSock => { s with dtls := if s.dtls = .handshaking then .failed else .closed, dtlsExited := true }
 
 /-- an action that is not enabled is a no-op -/
@@ -346,7 +402,7 @@ def run (s : St) (as : List Act) : St := as.foldl step s
 
 /-- actions of the implementation's own tasks (everything except application and environment) -/
 def internalActs : List Act :=
-  [.closeStep, .drvTop, .drvRole, .drvStart, .drvLoops, .drvIce, .drvDtls, .drvGrace,
+  [.closeStep, .drvTop, .drvRole, .drvDescs, .drvStart, .drvLoops, .drvIce, .drvDtls, .drvGrace,
    .sctpDtls, .sctpClose, .dtlsExit, .dtlsSock]
 
 def isInternal (a : Act) : Bool := internalActs.contains a
@@ -361,7 +417,7 @@ def terminal (s : St) : Bool :=
 
 def strictTerminal (s : St) : Bool := (s.peer == .failed || s.peer == .closed) && s.reason.isSome
 
-inductive Call | sendData | createOffer | setRemoteOffer | waitForConnected | createDataChannel | dcRecv (i : Nat)
+inductive Call | parkedSend | sendData | createOffer | setRemoteOffer | waitForConnected | createDataChannel | dcRecv (i : Nat)
 deriving DecidableEq, Repr
 
 inductive Outcome | errNow | okNow | pending
@@ -373,17 +429,21 @@ association errors at once: state Closed);
 `create_offer` / `set_remote_description(offer)`: signaling state must be `Stable`;
 `wait_for_connected`: returns on Connected / Failed / Closed, otherwise waits;
 `create_data_channel`: never blocks;
+`wait_for_connected` also returns (error) in `Disconnected` once a disconnect reason is recorded;
 `DataChannel::recv`: returns `None` once the channel's sender was dropped (`close_channel`), else waits. -/
 def call (s : St) : Call → Outcome
+  | .parkedSend => if s.blocked > 0 then .pending else .errNow
   | .sendData => if !s.held then .errNow else if s.sctp == .ended then .errNow else .okNow
   | .createOffer => if s.sig == .stable then .okNow else .errNow
   | .setRemoteOffer => if s.sig == .stable then .okNow else .errNow
   | .waitForConnected =>
     if s.peer == .connected then .okNow
-    else if s.peer == .failed || s.peer == .closed then .errNow else .pending
+    else if s.peer == .failed || s.peer == .closed then .errNow
+    else if s.peer == .disconnected && s.reason.isSome then .errNow   -- fix 3448715
+    else .pending
   | .createDataChannel => .okNow
   | .dcRecv i => match s.chans[i]? with
-    | some c => if c.closed then .okNow else .pending
+    | some c => if c.senderDropped then .okNow else .pending
     | none => .errNow
 
 /-! ### phase states (initial states of the harness runs) -/
@@ -394,10 +454,10 @@ inductive Phase
 deriving DecidableEq, Repr
 
 def base (mode : Mode) (hasApp : Bool) (nch : Nat) : St :=
-  { mode, hasApp, role := false, peer := .new, sig := .stable, reason := none, ice := .new, iceSeen := .new,
+  { mode, needDescs := false, descs := true, appGone := false, blocked := 0, hasApp, role := false, peer := .new, sig := .stable, reason := none, ice := .new, iceSeen := .new,
     dtls := .absent, dtlsSeen := .absent, dtlsCloseReq := false, dtlsExited := false, sctp := .absent,
     why := none, sctpCloseReq := false, held := false, listenersCleared := false,
-    chans := List.replicate nch ⟨false, 0⟩, drv := .idle, close := .none, closeArg := .localClose,
+    chans := List.replicate nch ⟨false, 0, false⟩, drv := .idle, close := .none, closeArg := .localClose,
     grace := false }
 
 def connectedSt (mode : Mode) (hasApp : Bool) (nch : Nat) : St :=
